@@ -54,8 +54,11 @@ Section Ang.
     let r := ang_normalize a in
     if ltb O turn_div_2 r then r - full_turn U else r.
   Definition ang_opposite (a : F) : F := ang_normalize (a + turn_div_2).
-  (* bisect(self, other) = normalize((self - other) * half + self) *)
-  Definition ang_bisect (a b : F) : F := ang_normalize ((a - b) * ofQ O q_half + a).
+  (* bisect(self, other) = normalize(self + (other - self).normalize_signed() * half)
+     (as repaired by /repo commit "fix: Angle::bisect returns the interior bisector") *)
+  Definition ang_bisect (a b : F) : F := ang_normalize (a + ang_normalize_signed (b - a) * ofQ O q_half).
+  (* the formula before the repair, kept for the refutation witness *)
+  Definition ang_bisect_old (a b : F) : F := ang_normalize ((a - b) * ofQ O q_half + a).
   (* trigonometry goes through Rad *)
   Definition ang_sin (a : F) : F := sin T (to_rad U a).
   Definition ang_cos (a : F) : F := cos T (to_rad U a).
